@@ -4,7 +4,7 @@ from checks import rtcommon
 
 def run(ctx):
     args = (["--n", "2500", "--maxdim", "24", "--exh", "1"] if ctx.quick
-            else ["--n", "40000", "--maxdim", "64", "--exh", "2", "--big"])
+            else ["--n", "160000", "--maxdim", "64", "--exh", "2", "--big"])
     return rtcommon.run_contract(
         ctx, "c03", args, class_keys=("p", "c", "cls"),
         rule="scenario = jpegls/lossless.Encode then Decode; exhaustive: all images up to 3x2/2x3 at P=2 and all 2-sample images at "
